@@ -26,6 +26,7 @@ func runC01(r *fw.Run, p *fw.Program) {
 	c01Bits(r, p)
 	c01Clone(r, p)
 	c01Buffer(r, p)
+	c01EOFBits(r, p)
 	c05BitioxAs(r, p, "C01.bitiox")
 }
 
